@@ -71,6 +71,11 @@ type LabProp struct {
 	Modes func(c *drv.Ctx, pt *Point, v lab.Variant) []proto.Mode
 	// Judge compares; it also feeds the stats (evaluations, non-trivial, classes, samples).
 	Judge func(c *drv.Ctx, pt *Point, l *lab.Lab) []Mismatch
+	// ReuseModes: additionally run all points of a grammar, in order, on ONE long-lived
+	// default-options instance per mode (Buffer=..., Reset(), Parse) and require every step to
+	// equal the fresh observation of the same mode: the property quantifies over all inputs,
+	// also those given to a parser that has parsed something else before.
+	ReuseModes []proto.Mode
 	// SkipCase lets a property leave out grammars outside its quantifier.
 	SkipCase func(cs *lab.Case) bool
 	// NeedBase: when the default-options package does not build the property cannot be observed.
@@ -310,6 +315,13 @@ func runLabProp(c *drv.Ctx, lp *LabProp) error {
 				}
 			}
 		}
+		if first == nil && len(lp.ReuseModes) > 0 {
+			if v := reuseCheck(c, lp, l, cases, pts); v != nil {
+				c.AddViolation(*v)
+				l.Close()
+				break
+			}
+		}
 		// unobservable packages are reported once per chunk (C08 decides them)
 		unobs := unobservable(l, lp)
 		if first != nil {
@@ -452,3 +464,69 @@ func sortedKeys[V any](m map[string]V) []string {
 }
 
 var _ = gram.KSeq
+
+// reuseCheck runs the points of every grammar on one long-lived instance per mode and
+// compares each step with the fresh observation.
+func reuseCheck(c *drv.Ctx, lp *LabProp, l *lab.Lab, cases []*lab.Case, pts []*Point) *drv.Violation {
+	v := lp.Variants[0]
+	byCase := map[int][]*Point{}
+	for _, pt := range pts {
+		if !pt.Ref.Budget && len(pt.Input) <= 400 {
+			byCase[pt.Case.ID] = append(byCase[pt.Case.ID], pt)
+		}
+	}
+	type ref struct {
+		cs   *lab.Case
+		mode proto.Mode
+		pts  []*Point
+	}
+	var reqs []proto.Req
+	var refs []ref
+	for _, cs := range cases {
+		name := fmt.Sprintf("g%d%s", cs.ID, v.Name)
+		if !l.Runnable(name) || len(byCase[cs.ID]) == 0 {
+			continue
+		}
+		for _, m := range lp.ReuseModes {
+			var steps []proto.Step
+			var ps []*Point
+			for _, pt := range byCase[cs.ID] {
+				if obsOf(pt, v.Name, m) == nil {
+					continue
+				}
+				steps = append(steps, proto.Step{Entry: pt.Entry, Input: proto.QStr(pt.Input)})
+				ps = append(ps, pt)
+			}
+			if len(steps) < 2 {
+				continue
+			}
+			reqs = append(reqs, proto.Req{Kind: "hist", Pkg: name, Steps: steps, Modes: []proto.Mode{m}})
+			refs = append(refs, ref{cs, m, ps})
+		}
+	}
+	outs := l.Run(reqs, runtime.NumCPU(), 60*time.Second)
+	for i, o := range outs {
+		r := refs[i]
+		if o.Hang || o.Died != "" || o.Resp.Err != "" {
+			continue
+		}
+		for si, pt := range r.pts {
+			if si >= len(o.Resp.Obs) {
+				break
+			}
+			c.Stats.Eval()
+			c.Stats.Class("reused_instance_steps")
+			fresh := obsOf(pt, v.Name, r.mode)
+			if d := obsDiff(&o.Resp.Obs[si], fresh); d != "" {
+				// materialise as a history: the steps up to the failing one
+				var steps []proto.Step
+				for _, p := range r.pts[:si+1] {
+					steps = append(steps, proto.Step{Entry: p.Entry, Input: proto.QStr(p.Input)})
+				}
+				ev := &histEval{what: fmt.Sprintf("step %d (entry %s, input %q) on a reused instance [%s] differs from a fresh parser: %s", si, r.cs.G.Rules[pt.Entry].Name, pt.Input, modeKey(r.mode), d), mode: r.mode, step: si}
+				return shrinkHist(c, lp.ID, r.cs, steps, ev)
+			}
+		}
+	}
+	return nil
+}
